@@ -306,7 +306,83 @@ def _asserts_fatal(prog, fn):
     return calls_is_fatal and panics
 
 
+def r_missing_element(ctx, rule="C20.T"):
+    """`Delimited lists reject a trailing delimiter fatally`: a delimiter is accepted only after an element.
+    When the element before a delimiter is missing, the list asks its collector for the value of a missing
+    element (lists that allow gaps supply one); when the collector has none, the parser must return the
+    error it was given for that case - on every path from the `None` answer to the function's exit, without
+    going round the loop again.  Otherwise `a,,b` and `,a` are lists."""
+    prog = ctx.prog
+    n = 0
+    for f in sorted(prog.fns.values(), key=lambda f: f.id):
+        if f.crate != "rusty_pc" or f.body is None or f.name != "parse" or f.kind == "closure":
+            continue
+        body = f.body
+        asks = [(b, t) for b, t in body.calls() if mir.callee_path(t).split("::")[-1] == "map_missing_element"]
+        delimited = any("delimiter" in str(e.get("n", "")) for blk in body.blocks for st in blk["s"]
+                        for e in (st.get("p", [0, []])[1] if st["k"] == "assign" else []) if isinstance(e, dict)) or \
+            "Delimited" in ((f.impl or {}).get("self_ty") or "")
+        if not asks:
+            if delimited:
+                n += 1
+                ctx.violation(rule, "%s:%s:asks-the-collector" % (rule, c20_unit(f)), f.loc,
+                              "%s no longer asks the element collector what a missing element is worth: a delimiter "
+                              "that follows no element is accepted or rejected for every kind of list alike" % c20_unit(f))
+            continue
+        pv = mir.Prov(body)
+        for cb, ct in asks:
+            # the switch on the answer
+            sws = []
+            for b in range(body.nblocks):
+                t = body.term(b)
+                if t["k"] != "switch" or body.is_cleanup(b):
+                    continue
+                p_ = mir.op_place(t["o"])
+                if p_ is None:
+                    continue
+                o = pv.of_place(p_)
+                if o[0] == "discr" and mir.strip_refs(o[1])[0] == "call" and mir.strip_refs(o[1])[3] == cb:
+                    sws.append((b, t))
+            n += 1
+            unit = c20_unit(f)
+            if not sws:
+                ctx.violation(rule, "%s:%s:none-is-fatal" % (rule, unit), "%s:%s" % (f.file, ct.get("ln")),
+                              "the answer of map_missing_element is not examined")
+                continue
+            b, t = sws[0]
+            none_t = [tgt for val, tgt in t["ts"] if val == 0]
+            tgt = none_t[0] if none_t else t["else"]
+            reach = body.reachable(tgt)
+            # going round again: the element parser is called again
+            loops = cb in reach
+            returns_err = False
+            for x in reach:
+                if body.is_cleanup(x):
+                    continue
+                for st in body.blocks[x]["s"]:
+                    r = st.get("r", {})
+                    if st["k"] == "assign" and r.get("k") == "agg" and r.get("a") == "adt" and r["variant"] == "Err":
+                        oo = pv.of_operand(r["ops"][0]) if r["ops"] else None
+                        if oo is not None and mir.origin_mentions(oo, lambda z: z[0] == "field" and "error" in str(z[2])):
+                            returns_err = True
+            ok = returns_err and not loops
+            ctx.decide(ok, rule, "%s:%s:none-is-fatal" % (rule, unit), "%s:%s" % (f.file, ct.get("ln")),
+                       "a collector without a value for a missing element makes the list fail with the error it was given",
+                       "%s: when the collector has no value for a missing element (map_missing_element() is None) the parser "
+                       "%s: a delimiter that follows no element is skipped, `a,,b` and `,a` parse as lists although the "
+                       "list was built not to allow missing elements (DIM x, , y; Add(1, , 2))"
+                       % (unit, "goes round the loop again" if loops else "does not return the error given for that case"))
+    ctx.analysed_units(rule, lists=n)
+    ctx.require(rule, 1)
+
+
+def c20_unit(f):
+    ty = ((f.impl or {}).get("self_ty") or f.path).split("<")[0].split("::")[-1]
+    return ty
+
+
 def run(ctx):
     common.install(ctx)
     is_fatal_fn = r_error_laws(ctx)
     r_contract(ctx, is_fatal_fn)
+    r_missing_element(ctx)
